@@ -324,6 +324,9 @@ def verify_script(ssig, spk, flags, tx, nin, checksig, stats=None):
         return False, str(e)
 
 
+OUT_OF_SCOPE = [0]
+
+
 def ecdsa_checksig(sig, pk, sc, tx, nin):
     """CHECKSIG semantics within the property's scope: strict DER + hash-type byte, SEC1 keys (incl. hybrid)"""
     if not sig:
@@ -333,6 +336,8 @@ def ecdsa_checksig(sig, pk, sc, tx, nin):
         return False
     rs = secp.parse_der_strict(sig[:-1])
     if rs is None:
+        if len(sig) >= 9 and sig[0] == 0x30:
+            OUT_OF_SCOPE[0] += 1      # DER-like but not strictly DER: lax-parser territory, excluded by the property statement
         return False
     z, _ = sighash.legacy(sc, tx, nin, sig[-1])
     return secp.verify(P, z, rs[0], rs[1])
